@@ -84,7 +84,7 @@ type world[T comparable] struct {
 	enc   func(int) T
 	dec   map[T]int
 	scale bool
-	univ1 bool // kinds Sz, So: the element type has no value to spare for a poison element (struct{}: ONE value, the only code is 0; bool: codes 0 and 1)
+	univ1 bool           // kinds Sz, So: the element type has no value to spare for a poison element (struct{}: ONE value, the only code is 0; bool: codes 0 and 1)
 	okc   func(int) bool // which codes the type can express (nil: struct{} = code 0 only when univ1, else every code)
 }
 
